@@ -95,6 +95,14 @@ def run(chk):
         tcfg = cfg("trace_cap%d" % cap, spec="TraceSpec", post=True, Cap=cap, Pushers="{1,2,3}", NVals=99, NConsumes=999)
         total += vlib.validate_concat(chk, SPEC, "TraceReservoir", tcfg, tro, "overlapping consume() calls cap=%d" % cap, KNOWN)
         chk.cov["distinct_nontrivial"] += s5["distinct"]
+    # pushes from a thread-local destructor at thread exit
+    for cap in (0, 1, 2, 8):
+        trt = chk.path("tls_cap%d.ndjson" % cap)
+        rc, out, s7 = vlib.harness("c16", ["tls", "--cap", cap, "--runs", 40 if thorough else 10, "--out", trt], env=env, timeout=600)
+        if rc != 0 or not s7:
+            chk.tool_error("c16 tls failed", out)
+        tcfg = cfg("trace_cap%d" % cap, spec="TraceSpec", post=True, Cap=cap, Pushers="{1,2,3}", NVals=99, NConsumes=999)
+        total += vlib.validate_concat(chk, SPEC, "TraceReservoir", tcfg, trt, "push from a thread-exit destructor cap=%d" % cap, KNOWN)
     # real-parallel hammer (pushers + consumer, small capacities): schedule-independent facts decided by TLC
     for cap in (0, 1, 2, 4):
         trh = chk.path("hammer_cap%d.ndjson" % cap)
